@@ -158,4 +158,16 @@ def maxCl : List Nat → Nat
   | [] => 0
   | c :: cs => max c (maxCl cs)
 
+/-- the last event of key `k` in an event list -/
+def lastEventOf (k : Key) (es : List Event) : Option Event := (es.filter (·.key = k)).getLast?
+
+/-- number of candidates of an input -/
+def candCount : List In → Nat
+  | [] => 0
+  | .batch b :: xs => b.length + candCount xs
+  | .tick :: xs => candCount xs
+
+/-- `n` fresh keys `1..n`, all inserts -/
+def fill (n : Nat) : List Cand := (List.range n).map (fun i => (i + 1, 1))
+
 end Corro.Updates
